@@ -15,13 +15,14 @@ def iter (R : Cur → Cur → Prop) : Nat → Cur → Cur → Prop
   | n + 1, c, c' => ∃ d, R c d ∧ iter R n d c'
 
 /-- `Matches ast c c'`: the tree matches the text between position `c` and position `c'` (look-around assertions
-    are evaluated at the positions where they stand).  Priorities, greediness and captures play no role here. -/
+    are evaluated at the positions where they stand).  Priorities, greediness and captures play no role here.
+    (`max mn b`: the parser rejects `{m,n}` with `m > n`; the tree type does not, and the matcher then runs `m` copies.) -/
 def Matches : Ast → Cur → Cur → Prop
   | .empty, c, c' => c = c'
   | .chr a, c, c' => ∃ t, c.rest = a :: t ∧ c' = c.adv a t
   | .cls rs, c, c' => ∃ d t, c.rest = d :: t ∧ inRanges rs d = true ∧ c' = c.adv d t
   | .look l, c, c' => lookOk l c = true ∧ c = c'
-  | .rep mn mx _ x, c, c' => ∃ n, mn ≤ n ∧ (∀ b, mx = some b → n ≤ b) ∧ iter (Matches x) n c c'
+  | .rep mn mx _ x, c, c' => ∃ n, mn ≤ n ∧ (∀ b, mx = some b → n ≤ max mn b) ∧ iter (Matches x) n c c'
   | .cap _ x, c, c' => Matches x c c'
   | .cat a b, c, c' => ∃ d, Matches a c d ∧ Matches b d c'
   | .alt a b, c, c' => Matches a c c' ∨ Matches b c c'
@@ -131,13 +132,10 @@ theorem m_sound (ast : Ast) : SoundM (m ast) (Matches ast) := by
     cases mx with
     | none =>
       obtain ⟨e, capse, ⟨j, hJ⟩, hk'⟩ := repStar_sound _ _ ih g _ _ _ _ _ hk
-      exact ⟨e, capse, ⟨mn + j, by omega, by intro b hb; cases hb, iter_append _ _ _ _ _ _ hI hJ⟩, hk'⟩
+      exact ⟨e, capse, ⟨mn + j, ⟨by omega, ⟨(fun b hb => nomatch hb), iter_append _ _ _ _ _ _ hI hJ⟩⟩⟩, hk'⟩
     | some b =>
       obtain ⟨e, capse, ⟨j, hj, hJ⟩, hk'⟩ := repOpt_sound _ _ ih g _ _ _ _ _ hk
-      refine ⟨e, capse, ⟨mn + j, by omega, ?_, iter_append _ _ _ _ _ _ hI hJ⟩, hk'⟩
-      intro b' hb'; cases hb'
-      -- `b < mn` cannot happen for parsed patterns; the matcher then runs exactly `mn` copies
-      sorry
+      exact ⟨e, capse, ⟨mn + j, ⟨by omega, ⟨fun b' hb' => by cases hb'; omega, iter_append _ _ _ _ _ _ hI hJ⟩⟩⟩, hk'⟩
   | cap i x ih =>
     intro cur caps k r h
     simp only [m] at h
@@ -157,5 +155,176 @@ theorem m_sound (ast : Ast) : SoundM (m ast) (Matches ast) := by
       exact ⟨d, capsd, Or.inl hA, hk⟩
     · obtain ⟨d, capsd, hB, hk⟩ := ihb _ _ _ _ h2
       exact ⟨d, capsd, Or.inr hB, hk⟩
+
+
+/-! ### positions: a match consumes a piece of the text -/
+
+/-- `c'` is reached from `c` by consuming the word `w` -/
+def ReachW (c : Cur) (w : Str) (c' : Cur) : Prop :=
+  c.rest = w ++ c'.rest ∧ c'.i = c.i + w.length ∧ c'.prev = (match w.getLast? with | some x => some x | none => c.prev)
+
+def Reach (c c' : Cur) : Prop := ∃ w, ReachW c w c'
+
+theorem Reach.refl (c : Cur) : Reach c c := ⟨[], by simp [ReachW]⟩
+
+theorem Reach.adv (c : Cur) (a : Char) (t : Str) (h : c.rest = a :: t) : Reach c (c.adv a t) :=
+  ⟨[a], by simp [ReachW, Cur.adv, h]⟩
+
+theorem Reach.trans {c d e : Cur} (h1 : Reach c d) (h2 : Reach d e) : Reach c e := by
+  obtain ⟨w1, r1, i1, p1⟩ := h1
+  obtain ⟨w2, r2, i2, p2⟩ := h2
+  refine ⟨w1 ++ w2, by rw [r1, r2, List.append_assoc], by rw [i2, i1, List.length_append]; omega, ?_⟩
+  rw [p2, p1, List.getLast?_append]
+  cases w2.getLast? <;> simp
+
+theorem iter_reach (R : Cur → Cur → Prop) (hR : ∀ c c', R c c' → Reach c c') (n : Nat) (c c' : Cur)
+    (h : iter R n c c') : Reach c c' := by
+  induction n generalizing c with
+  | zero => simp only [iter] at h; subst h; exact Reach.refl _
+  | succ n ih => obtain ⟨d, hd, hr⟩ := h; exact (hR _ _ hd).trans (ih _ hr)
+
+theorem Matches_reach (ast : Ast) (c c' : Cur) (h : Matches ast c c') : Reach c c' := by
+  induction ast generalizing c c' with
+  | empty => simp only [Matches] at h; subst h; exact Reach.refl _
+  | chr a => obtain ⟨t, ht, rfl⟩ := h; exact Reach.adv _ _ _ ht
+  | cls rs => obtain ⟨d, t, ht, _, rfl⟩ := h; exact Reach.adv _ _ _ ht
+  | look l => obtain ⟨_, rfl⟩ := h; exact Reach.refl _
+  | rep mn mx g x ih => obtain ⟨n, _, _, hI⟩ := h; exact iter_reach _ ih n _ _ hI
+  | cap i x ih => exact ih _ _ h
+  | cat a b iha ihb => obtain ⟨d, h1, h2⟩ := h; exact (iha _ _ h1).trans (ihb _ _ h2)
+  | alt a b iha ihb => rcases h with h | h; exact iha _ _ h; exact ihb _ _ h
+
+/-- `c` is a position of the haystack `h`: index, previous char and remaining text fit together -/
+def At (h : Str) (c : Cur) : Prop := ∃ pre, h = pre ++ c.rest ∧ c.i = pre.length ∧ c.prev = pre.getLast?
+
+theorem At.cur0 (h : Str) : At h (cur0 h) := ⟨[], by simp [RegexEngine.cur0]⟩
+
+theorem At.reach {h : Str} {c c' : Cur} (hc : At h c) (hr : Reach c c') : At h c' := by
+  obtain ⟨pre, hh, hi, hp⟩ := hc
+  obtain ⟨w, r, i, p⟩ := hr
+  refine ⟨pre ++ w, by rw [hh, r, List.append_assoc], by rw [i, hi, List.length_append], ?_⟩
+  rw [p, hp, List.getLast?_append]
+  cases w.getLast? <;> simp
+
+theorem At.le_length {h : Str} {c : Cur} (hc : At h c) : c.i ≤ h.length := by
+  obtain ⟨pre, hh, hi, _⟩ := hc
+  rw [hh, hi, List.length_append]; omega
+
+/-- the text between two positions of `h` related by a word is that word -/
+theorem extract_reachW {h : Str} {c c' : Cur} {w : Str} (hc : At h c) (hr : ReachW c w c') :
+    extract h c.i c'.i = w := by
+  obtain ⟨pre, hh, hi, _⟩ := hc
+  obtain ⟨r, i, _⟩ := hr
+  simp [extract, hh, hi, i, r]
+
+/-! ### soundness of the search and of the iteration -/
+
+/-- what a search result is: a match of the tree at a position of the haystack not before the search start -/
+def GoodMatch (re : Compiled) (h : Str) (lo : Nat) (x : Mt) : Prop :=
+  ∃ c, At h c ∧ lo ≤ c.i ∧ c.i = x.s ∧ Matches re.ast c x.e
+
+theorem searchFrom_sound (re : Compiled) (h : Str) (i : Nat) (prev : Option Char) (s : Str) (x : Mt)
+    (hc : At h ⟨i, prev, s⟩) (hs : searchFrom re i prev s = some x) : GoodMatch re h i x := by
+  induction s generalizing i prev with
+  | nil =>
+    simp only [searchFrom] at hs
+    split at hs
+    · rename_i r hm
+      cases hs
+      obtain ⟨c', caps', hM, hk⟩ := m_sound re.ast _ _ _ _ hm
+      simp only [accept, Option.some.injEq] at hk
+      subst hk
+      exact ⟨_, hc, Nat.le_refl _, rfl, hM⟩
+    · cases hs
+  | cons a t ih =>
+    simp only [searchFrom] at hs
+    split at hs
+    · rename_i r hm
+      cases hs
+      obtain ⟨c', caps', hM, hk⟩ := m_sound re.ast _ _ _ _ hm
+      simp only [accept, Option.some.injEq] at hk
+      subst hk
+      exact ⟨_, hc, Nat.le_refl _, rfl, hM⟩
+    · have hc' : At h ⟨i + 1, some a, t⟩ := hc.reach (Reach.adv ⟨i, prev, a :: t⟩ a t rfl)
+      obtain ⟨c, h1, h2, h3, h4⟩ := ih _ _ hc' hs
+      exact ⟨c, h1, by omega, h3, h4⟩
+
+theorem search_sound (re : Compiled) (h : Str) (cur : Cur) (x : Mt) (hc : At h cur) (hs : search re cur = some x) :
+    GoodMatch re h cur.i x := searchFrom_sound re h _ _ _ x hc hs
+
+theorem GoodMatch.at_end {re : Compiled} {h : Str} {lo : Nat} {x : Mt} (g : GoodMatch re h lo x) : At h x.e := by
+  obtain ⟨c, hc, _, _, hM⟩ := g
+  exact hc.reach (Matches_reach _ _ _ hM)
+
+theorem GoodMatch.le {re : Compiled} {h : Str} {lo : Nat} {x : Mt} (g : GoodMatch re h lo x) :
+    lo ≤ x.s ∧ x.s ≤ x.e.i ∧ x.e.i ≤ h.length := by
+  have he := g.at_end.le_length
+  obtain ⟨c, hc, hlo, hs, hM⟩ := g
+  obtain ⟨w, _, hi, _⟩ := Matches_reach _ _ _ hM
+  omega
+
+/-- reported matches are matches of the tree, they are ordered and do not overlap: each starts at or behind the end
+    of the previous one -/
+def Chain (re : Compiled) (h : Str) : Nat → List Mt → Prop
+  | _, [] => True
+  | lo, x :: xs => GoodMatch re h lo x ∧ Chain re h x.e.i xs
+
+theorem findIterAux_chain (re : Compiled) (h : Str) (f : Nat) (cur : Cur) (last : Option Nat) (hc : At h cur) :
+    Chain re h cur.i (findIterAux re f cur last) := by
+  induction f generalizing cur last with
+  | zero => simp [findIterAux, Chain]
+  | succ f ih =>
+    simp only [findIterAux]
+    cases hs : search re cur with
+    | none => simp [Chain]
+    | some x =>
+      have gx := search_sound re h cur x hc hs
+      simp only
+      split
+      · cases hr : cur.rest with
+        | nil => simp [Chain]
+        | cons a t =>
+          simp only
+          have hc' : At h (cur.adv a t) := hc.reach (Reach.adv cur a t hr)
+          cases hs' : search re (cur.adv a t) with
+          | none => simp [Chain]
+          | some y =>
+            have gy := search_sound re h _ y hc' hs'
+            simp only [Chain]
+            refine ⟨?_, ih _ _ gy.at_end⟩
+            obtain ⟨c, h1, h2, h3, h4⟩ := gy
+            exact ⟨c, h1, by simp only [Cur.adv] at h2; omega, h3, h4⟩
+      · simp only [Chain]
+        exact ⟨gx, ih _ _ gx.at_end⟩
+
+/-- soundness of `find_iter`: every reported match is a match of the compiled tree in the sense of `Matches`,
+    located inside the haystack; the matches are ordered and non-overlapping -/
+theorem allMatches_chain (re : Compiled) (h : Str) : Chain re h 0 (allMatches re h) :=
+  findIterAux_chain re h _ _ _ (At.cur0 h)
+
+theorem Chain.mem {re : Compiled} {h : Str} {lo : Nat} {ms : List Mt} (hch : Chain re h lo ms) (x : Mt) (hx : x ∈ ms) :
+    ∃ lo', GoodMatch re h lo' x := by
+  induction ms generalizing lo with
+  | nil => cases hx
+  | cons y ys ih =>
+    obtain ⟨gy, hrest⟩ := hch
+    rcases List.mem_cons.mp hx with rfl | hx'
+    · exact ⟨lo, gy⟩
+    · exact ih hrest hx'
+
+/-- the text `re_find` reports for a match is the word consumed between two positions related by `Matches` -/
+theorem allMatches_sound (re : Compiled) (h : Str) (x : Mt) (hx : x ∈ allMatches re h) :
+    ∃ c w, At h c ∧ Matches re.ast c x.e ∧ ReachW c w x.e ∧ x.text h = w ∧ x.s ≤ x.e.i ∧ x.e.i ≤ h.length := by
+  obtain ⟨lo, g⟩ := (allMatches_chain re h).mem x hx
+  have hle := g.le
+  obtain ⟨c, hc, _, hs, hM⟩ := g
+  obtain ⟨w, hw⟩ := Matches_reach _ _ _ hM
+  exact ⟨c, w, hc, hM, hw, by rw [Mt.text, ← hs]; exact extract_reachW hc hw, hle.2.1, hle.2.2⟩
+
+/-- non-vacuity: `a+` matches "aa" between positions 1 and 3 of "baa", and the search finds it there -/
+example : Matches (.rep 1 none true (.chr 'a')) ⟨1, some 'b', ['a', 'a']⟩ ⟨3, some 'a', []⟩ :=
+  ⟨2, by omega, (fun b hb => nomatch hb), ⟨2, some 'a', ['a']⟩, ⟨['a'], rfl, rfl⟩, ⟨3, some 'a', []⟩, ⟨[], rfl, rfl⟩, rfl⟩
+example : (search ⟨.rep 1 none true (.chr 'a'), 1, []⟩ (cur0 ['b', 'a', 'a'])).map (fun x => (x.s, x.e.i)) = some (1, 3) := by
+  decide
 
 end Slac.RegexEngine
